@@ -106,6 +106,11 @@ func (w *world) final() {
 
 // checkPacing evaluates the retry timing inequalities over the recorded attempts (C16).
 func (w *world) checkPacing() {
+	if w.nRecs > 1 {
+		// with several reconcilers an object is also re-processed because another reconciler's
+		// status write changed it: such an attempt is not a retry and is not paced
+		return
+	}
 	period := w.roundEvery + time.Millisecond
 	for _, rc := range w.recs {
 		byID := map[uint64][]*attempt{}
@@ -198,13 +203,14 @@ func (w *world) waiter(t *simcore.Task) {
 		type need struct {
 			id  uint64
 			ver int
+			rev uint64
 			at  time.Duration
 			del bool
 		}
 		var needs []need
 		for id := range w.history {
 			if lu, ok := w.latestUser(id); ok && lu.rev <= rev {
-				needs = append(needs, need{id: id, ver: lu.ver, at: lu.at, del: lu.ver < 0})
+				needs = append(needs, need{id: id, ver: lu.ver, rev: lu.rev, at: lu.at, del: lu.ver < 0})
 			}
 		}
 		sort.Slice(needs, func(a, b int) bool { return needs[a].id < needs[b].id })
@@ -238,7 +244,7 @@ func (w *world) waiter(t *simcore.Task) {
 		// every change up to rev has been attempted at least once
 		for _, nd := range needs {
 			// still the key's latest?
-			if lu, ok := w.latestUser(nd.id); !ok || lu.ver != nd.ver {
+			if lu, ok := w.latestUser(nd.id); !ok || lu.rev != nd.rev {
 				continue
 			}
 			if nd.del {
@@ -260,10 +266,17 @@ func (w *world) waiter(t *simcore.Task) {
 				}
 			}
 			if !attempted {
-				w.violate("C16", "wur-unattempted", "WaitUntilReconciled(r%d, %d) returned %d without error, but the change of object %d (ver %d, committed at %v, revision <= %d) has not been attempted by the reconciler",
-					rc.idx, rev, got, nd.id, nd.ver, nd.at, rev)
+				suffix := ""
+				if w.nRecs > 1 {
+					suffix = fmt.Sprintf(" [%d reconcilers on the table]", w.nRecs)
+				}
+				w.violate("C16", "wur-unattempted", "WaitUntilReconciled(r%d, %d) returned %d without error, but the change of object %d (ver %d, committed at %v, revision <= %d) has not been attempted by the reconciler%s",
+					rc.idx, rev, got, nd.id, nd.ver, nd.at, rev, suffix)
 				return
 			}
+		}
+		if w.nRecs > 1 {
+			continue // which revision is "the failed change" is ambiguous when other reconcilers' status writes move the object
 		}
 		// retry low watermark: zero exactly when no failed object awaits retry
 		from := roundsBefore - 1
